@@ -16,28 +16,36 @@ shutil.copytree(demo, os.path.join(dst, 'demo'), ignore=shutil.ignore_patterns('
 notes = json.load(open(os.path.join(out, 'notes.json')))
 verify = open('/tmp/seed_%s_verify.log' % sid).read() if os.path.exists('/tmp/seed_%s_verify.log' % sid) else ''
 res_line = [l for l in verify.splitlines() if l.startswith('RESULT')]
-st = subprocess.run(['git', '-C', '/repo', 'status', '--porcelain'], stdout=subprocess.PIPE, text=True).stdout.strip()
-assert not st, '/repo not clean: ' + st
-ap = subprocess.run(['git', '-C', '/repo', 'apply', os.path.join(dst, 'patch.diff')], stdout=subprocess.PIPE, stderr=subprocess.STDOUT, text=True)
+import tempfile
+from concurrent.futures import ThreadPoolExecutor
+# the checks run against a scratch copy of /repo with the change applied (VERIF_REPO), exactly as the thorough
+# tier's seeded replay does: /repo itself is never touched, so several seeds can be recorded while work goes on
+tmp = tempfile.mkdtemp(prefix='seedrun_%s_' % sid)
+scratch = os.path.join(tmp, 'repo')
+subprocess.run(['rsync', '-a', '--exclude', 'target', '--exclude', '.git', '/repo/', scratch + '/'], check=True)
+ap = subprocess.run(['patch', '-p1', '-s', '-d', scratch, '-i', os.path.join(dst, 'patch.diff')], stdout=subprocess.PIPE, stderr=subprocess.STDOUT, text=True)
 assert ap.returncode == 0, 'patch does not apply: ' + ap.stdout
 caught = {}
 try:
     man = json.load(open(os.path.join(VERIF, 'MANIFEST.json')))
     only = sys.argv[3].split(',') if len(sys.argv) > 3 else None
-    for c in man['checks']:
-        pid = c['property_id']
-        if only and pid not in only:
-            continue
-        env = dict(os.environ, VERIF_EVIDENCE_DIR='/tmp/seed_evidence_%s' % sid)
-        r = subprocess.run([os.path.join(VERIF, 'check'), pid], cwd=VERIF, env=env, stdout=subprocess.PIPE, stderr=subprocess.STDOUT, text=True)
+    env = dict(os.environ, VERIF_EVIDENCE_DIR=os.path.join(tmp, 'evidence'), VERIF_REPO=scratch)
+    pids = [c['property_id'] for c in man['checks'] if not only or c['property_id'] in only]
+
+    def one(pid):
+        return pid, subprocess.run([os.path.join(VERIF, 'check'), pid], cwd=VERIF, env=env, stdout=subprocess.PIPE, stderr=subprocess.STDOUT, text=True)
+    # first one alone: it extracts the facts of the scratch tree
+    results = [one(pids[0])]
+    with ThreadPoolExecutor(6) as ex:
+        results += list(ex.map(one, pids[1:]))
+    for pid, r in results:
         if 'VIOLATION property=%s' % pid in r.stdout:
             rules = sorted(set(l.split()[0] for l in r.stdout.splitlines() if l.startswith('  C')))
             caught[pid] = rules
         elif r.returncode not in (0, 1):
-            caught[pid] = ['CHECK-ERROR: ' + r.stdout.strip().splitlines()[-1][:200]]
+            caught[pid] = ['CHECK-ERROR: ' + (r.stdout.strip().splitlines() or ['?'])[-1][:200]]
 finally:
-    subprocess.run(['git', '-C', '/repo', 'checkout', '--', '.'])
-    shutil.rmtree('/tmp/seed_evidence_%s' % sid, ignore_errors=True)
+    shutil.rmtree(tmp, ignore_errors=True)
 meta = {
     'id': name, 'property': notes.get('property', sid[:3]), 'origin': 'independent sub-agent given only the property text and a scratch worktree',
     'summary': notes.get('summary'), 'needs': notes.get('needs'), 'demo_cmd': notes.get('demo_cmd'),
